@@ -121,6 +121,21 @@ theorem ownership_protocol :
       (p.1 = "loadSurroundings" || p.1 = "loadSurroundings.go2" || !(p.2.contains "wr page.loadingDown"))) = true := by
   refine ⟨by decide +kernel, by decide +kernel, by decide +kernel⟩
 
+/-- The loaders only ever touch the page they were started for (the local `page`), never
+    "whatever page is current now": the flag they reset and the fields they replace belong to the
+    page whose flag was set on their behalf. -/
+theorem loaders_touch_their_own_page :
+    ((lookupSk "loadSurroundings.go1" ++ lookupSk "loadSurroundings.go2").all fun e =>
+      e != "rd s.h" && e != "wr s.h" &&
+      !(["cur.feed", "cur.frontier", "cur.children", "cur.basepoint", "cur.loadingUp", "cur.loadingDown"].any
+          fun f => e = "rd " ++ f || e = "wr " ++ f)) = true ∧
+    lookupSk "loadSurroundings.go1" =
+      ["rd page.frontier", "lock", "wr page.feed", "wr page.frontier", "wr page.loadingUp", "call view", "emit s.view()", "unlock"] ∧
+    lookupSk "loadSurroundings.go2" =
+      ["rd page.children", "rd page.basepoint", "lock", "wr page.feed", "wr page.children", "wr page.basepoint",
+       "wr page.loadingDown", "call view", "emit s.view()", "unlock"] := by
+  refine ⟨by decide +kernel, by decide +kernel, by decide +kernel⟩
+
 /-- The two loaders, as templates of the concurrency model (the test-and-set done on their behalf
     by `loadSurroundings` under the mutex is their `acquire`), and a key handler, satisfy
     `Disciplined`; so Part 1 applies to any number of them. -/
